@@ -18,3 +18,60 @@ def bfd_count(vals, C):
 
 def lb_count(vals, C):
     return math.ceil(sum(vals) / C) if C else 0
+
+
+def objective_value(o, kp, sums):
+    """the value to MINIMISE of a sum vector under objective o (the same five as ObjectivesDoc.tla's Value)"""
+    sv = sorted(sums)
+    if o == "maxsum":
+        return sv[-1]
+    if o == "minsum":
+        return -sv[0]
+    if o == "diff":
+        return sv[-1] - sv[0]
+    if o == "ksmallest":
+        return -sum(sv[:kp])
+    if o == "klargest":
+        return sum(sv[len(sv) - kp:]) if kp > 0 else 0
+    raise ValueError(o)
+
+
+def best_partition(vals, k, o="diff", kp=0):
+    """an optimal k-way partition for objective o, by exhaustive dynamic programming over sorted sum vectors with back-pointers; returns
+    (value, bins as lists of 1-based ids).  Used to supply WITNESS partitions that TLC checks itself (JWit): the judge never trusts this
+    computation - a wrong witness can only make a violation go unreported."""
+    order = sorted(range(len(vals)), key=lambda i: -vals[i])
+    layer = {tuple([0] * k): None}
+    hist = []
+    for i in order:
+        nxt = {}
+        for sv in layer:
+            seen = set()
+            for b in range(k):
+                if sv[b] in seen:
+                    continue
+                seen.add(sv[b])
+                t = list(sv); t[b] += vals[i]
+                key = tuple(sorted(t))
+                if key not in nxt:
+                    nxt[key] = (sv, sv[b])
+        hist.append(nxt)
+        layer = nxt
+    best = min(layer, key=lambda sv: (objective_value(o, kp, sv), sv))
+    cur = best
+    assign = []   # (item index, sum of the bin it was added to BEFORE adding)
+    for j in range(len(order) - 1, -1, -1):
+        prev, bsum = hist[j][cur]
+        assign.append((order[j], bsum))
+        cur = prev
+    assign.reverse()
+    sums, bins = [0] * k, [[] for _ in range(k)]
+    for i, bsum in assign:
+        b = next(b for b in range(k) if sums[b] == bsum)
+        sums[b] += vals[i]; bins[b].append(i + 1)
+    assert sorted(sums) == list(best)
+    return objective_value(o, kp, best), bins
+
+
+def best_diff_partition(vals, k):
+    return best_partition(vals, k, "diff", 0)
